@@ -38,7 +38,10 @@ type bchart struct {
 	Unk   int
 }
 
-func genBarrierChart(rng *rand.Rand) *bchart {
+// genBarrierChart: small = 2-5 resources in each of 3-6 kinds; large = 70-200 resources, one kind
+// with 66-130 of them (so kinds straddle multiples of 64 in the resource list), the second
+// resource of every kind answering slowly (name suffix -slow: 250 ms instead of 0-3 ms).
+func genBarrierChart(rng *rand.Rand, large bool) *bchart {
 	bc := &bchart{Files: gen.Files{"Chart.yaml": "apiVersion: v2\nname: bar\nversion: 0.1.0\n", "values.yaml": "k: v\n"}}
 	nk := 3 + rng.Intn(4)
 	perm := rng.Perm(len(barrierKinds))[:nk]
@@ -61,22 +64,36 @@ func genBarrierChart(rng *rand.Rand) *bchart {
 		nk = len(perm)
 	}
 	var docs []string
+	bigAt := rng.Intn(len(perm))
 	for _, ki := range perm {
 		k := barrierKinds[ki]
 		if k.kind == "Widget" || k.kind == "Gadget" {
 			bc.Unk++
 		}
 		n := 2 + rng.Intn(4)
+		if large {
+			n = 3 + rng.Intn(28)
+			if ki == perm[bigAt] {
+				n = 66 + rng.Intn(65)
+			}
+		}
 		for j := 0; j < n; j++ {
 			name := fmt.Sprintf("%s-%d", strings.ToLower(k.kind), j)
+			if large && j == 1 {
+				name += "-slow" // an EARLY resource of its kind (documents of large charts keep this order)
+			}
 			bc.Res = append(bc.Res, bres{k.kind, k.apiVersion, name})
 			docs = append(docs, fmt.Sprintf("apiVersion: %s\nkind: %s\nmetadata:\n  name: %s\n", k.apiVersion, k.kind, name))
 		}
 	}
 	bc.Kinds = nk
 	// documents are spread over 1-3 files in shuffled order: ordering is helm's job
-	rng.Shuffle(len(docs), func(i, j int) { docs[i], docs[j] = docs[j], docs[i] })
 	nf := 1 + rng.Intn(3)
+	if large {
+		nf = 1 // one file, generation order: the slow resource of a kind is among the first of its kind in the resource list
+	} else {
+		rng.Shuffle(len(docs), func(i, j int) { docs[i], docs[j] = docs[j], docs[i] })
+	}
 	for f := 0; f < nf; f++ {
 		var part []string
 		for i, d := range docs {
@@ -94,6 +111,9 @@ func genBarrierChart(rng *rand.Rand) *bchart {
 func delayMicros(seed int64, method, kind, name string) int64 {
 	h := fnv.New64a()
 	fmt.Fprintf(h, "%d|%s|%s|%s", seed, method, kind, name)
+	if strings.HasSuffix(name, "-slow") {
+		return 250000 + int64(h.Sum64()%3001)
+	}
 	return int64(h.Sum64() % 3001)
 }
 
@@ -140,9 +160,9 @@ func spans(log []sim.Event, agent, method string) map[string]*span {
 	return out
 }
 
-func installOne(res *core.Result, mu *sync.Mutex, seed int64, idx int, verbose bool) {
+func installOne(res *core.Result, mu *sync.Mutex, seed int64, idx int, large, verbose bool) {
 	rng := rand.New(rand.NewSource(seed))
-	bc := genBarrierChart(rng)
+	bc := genBarrierChart(rng, large)
 	w := env.NewWorld("memory", "ns1")
 	w.Sim.Delay = func(r *sim.Req) time.Duration {
 		if r.Class != "mutation" || r.Res == nil || (r.Method != "POST" && r.Method != "DELETE") {
@@ -200,6 +220,9 @@ func installOne(res *core.Result, mu *sync.Mutex, seed int64, idx int, verbose b
 				p = append(p, fmt.Sprintf("%d:%s %s/%s", e.Seq, e.Phase, e.Kind, e.Name))
 			}
 		}
+		if len(p) > 120 && !verbose {
+			p = append(append([]string{}, p[:60]...), append([]string{"..."}, p[len(p)-60:]...)...)
+		}
 		return strings.Join(p, ", ")
 	}
 	if verbose {
@@ -232,6 +255,7 @@ func installOne(res *core.Result, mu *sync.Mutex, seed int64, idx int, verbose b
 		}
 	}
 	var pairs, capable, barriers int64
+	reported := 0 // at most a few witnesses per install (large installs have ~10^4 pairs)
 	for _, a := range bc.Res {
 		for _, b := range bc.Res {
 			if a.Kind == b.Kind {
@@ -249,7 +273,8 @@ func installOne(res *core.Result, mu *sync.Mutex, seed int64, idx int, verbose b
 				if delayMicros(seed, "POST", a.Kind, a.Name) > delayMicros(seed, "POST", b.Kind, b.Name)+300 {
 					capable++
 				}
-				if !(sa.done < sb.recv) {
+				if !(sa.done < sb.recv) && reported < 4 {
+					reported++
 					cls := "create of a later known kind received before an earlier kind completed"
 					if rb < 0 {
 						cls = "create of an unknown kind received before a known kind completed"
@@ -264,7 +289,8 @@ func installOne(res *core.Result, mu *sync.Mutex, seed int64, idx int, verbose b
 				// two different unknown kinds: some order, but never overlapping
 				pairs++
 				barriers++
-				if !(sa.done < sb.recv || sb.done < sa.recv) {
+				if !(sa.done < sb.recv || sb.done < sa.recv) && reported < 6 {
+					reported++
 					local.Add("create-barrier", "creates of two different unknown kinds overlap", "%s/%s [recv %d, done %d] vs %s/%s [recv %d, done %d] | creates: %s | %s",
 						a.Kind, a.Name, sa.recv, sa.done, b.Kind, b.Name, sb.recv, sb.done, trace("op", "POST"), describe())
 				}
@@ -338,7 +364,8 @@ func installOne(res *core.Result, mu *sync.Mutex, seed int64, idx int, verbose b
 				continue
 			}
 			dpairs++
-			if !(sa.recv < sb.recv) {
+			if !(sa.recv < sb.recv) && reported < 8 {
+				reported++
 				local.Add("delete-order", "DELETE of a later kind (UninstallOrder) received before one of an earlier kind", "%s/%s recv %d (rank %d) vs %s/%s recv %d (rank %d) | deletes: %s | %s",
 					a.Kind, a.Name, sa.recv, ra, b.Kind, b.Name, sb.recv, rb, trace("un", "DELETE"), describe())
 			}
@@ -349,6 +376,10 @@ func installOne(res *core.Result, mu *sync.Mutex, seed int64, idx int, verbose b
 	res.Violations = append(res.Violations, local.Violations...)
 	res.Evals += 2
 	res.Stat("barrier_installs", 1)
+	if large {
+		res.Stat("barrier_large_installs_over_64_resources", 1)
+		res.Stat("barrier_large_install_resources", int64(len(bc.Res)))
+	}
 	var rejected int64
 	for _, s := range cs {
 		rejected += int64(s.rejected)
@@ -361,7 +392,11 @@ func installOne(res *core.Result, mu *sync.Mutex, seed int64, idx int, verbose b
 	res.Stat("create_pairs_unknown_vs_unknown", barriers)
 	res.Stat("unknown_kind_group_pairs_checked", groupPairs)
 	res.Stat("delete_pairs_cross_kind_checked", dpairs)
-	res.Key("barrier|kinds=%d|resources=%d|unknown-kinds=%d", bc.Kinds, len(bc.Res), bc.Unk)
+	if large {
+		res.Key("barrier-large|kinds=%d|windows-of-64=%d|unknown-kinds=%d", bc.Kinds, (len(bc.Res)+63)/64, bc.Unk)
+	} else {
+		res.Key("barrier|kinds=%d|resources=%d|unknown-kinds=%d", bc.Kinds, len(bc.Res), bc.Unk)
+	}
 	if res.Sample == nil {
 		var ks []string
 		seen := map[string]bool{}
@@ -378,7 +413,7 @@ func installOne(res *core.Result, mu *sync.Mutex, seed int64, idx int, verbose b
 
 func runBarrier(res *core.Result, d caseData, verbose bool) {
 	rng := rand.New(rand.NewSource(d.Seed))
-	seeds := make([]int64, d.N)
+	seeds := make([]int64, d.N+d.Large)
 	for i := range seeds {
 		seeds[i] = rng.Int63()
 	}
@@ -390,11 +425,11 @@ func runBarrier(res *core.Result, d caseData, verbose bool) {
 		wg.Add(1)
 		go func(l int) {
 			defer wg.Done()
-			for i := l; i < d.N; i += lanes {
+			for i := l; i < d.N+d.Large; i += lanes {
 				if d.Only != 0 && d.Only != i+1 {
 					continue
 				}
-				installOne(res, &mu, seeds[i], i+1, verbose)
+				installOne(res, &mu, seeds[i], i+1, i >= d.N, verbose)
 			}
 		}(l)
 	}
